@@ -1,5 +1,6 @@
 import Pose.Wire
 import Pose.Model.LMLoop
+import Pose.Model.LMNormal
 /-!
 Driver ops for C08.
 
@@ -271,6 +272,27 @@ def opsC08 : List (String × Handler) := [
           | 1 => initAdaptive a b
           | _ => initTrust a b
         return fmt [s.damping, s.radius, s.down]
+      | _ => throw "arity"),
+  -- c08.normal m n J(m*n) lam(n) D(n) R(m) -> lhs(n) = Jᵀ(J D) + Λ⊙D ; rhs(n) = −JᵀR ; den = qualityDen ; ‖J D‖² + 2·DᵀΛD
+  --   (the two sides of `SolvesDamped`, and the two sides of `qualityDen_pos_of_normal_equations`)
+  ("c08.normal", fun ts => do
+      match ts with
+      | m :: n :: rest =>
+        let m ← nat m
+        let n ← nat n
+        let (jt, rest) ← Wire.take (m * n) rest
+        let (lt, rest) ← Wire.take n rest
+        let (dt, rest) ← Wire.take n rest
+        let (rt, rest) ← Wire.take m rest
+        if !rest.isEmpty then throw "arity"
+        let J := rowsOf m n (← nums jt)
+        let lam ← nums lt
+        let Dv ← nums dt
+        let R ← nums rt
+        let lhs := DVec.add (tmulVec Dv.length J (DMat.mulVec J Dv)) (List.zipWith (· * ·) lam Dv)
+        let rhs := DVec.neg (tmulVec Dv.length J R)
+        let u := DMat.mulVec J Dv
+        return fmt (lhs ++ rhs ++ [qualityDen J Dv R, DVec.normSq u + k 2 * wsq lam Dv])
       | _ => throw "arity"),
   -- c08.loss nk kernel* nouts (nitems dim values*)*  -> loss
   ("c08.loss", fun ts => do
